@@ -51,10 +51,10 @@ CLAIMED = {
         text="coq/server/C10.v: (1) for every pipelined sequence of well-formed body-less requests, every segmentation and every handler, the bytes a connection writes are the concatenation in request order "
              "of each request's own answer (one answer per request, in order); (2) for the client connection's pending-handler queue, in every history of Do / response / close / failed send / recycle: "
              "callbacks invoked so far ++ pending = submitted requests in submission order (never twice, FIFO), and after a close nothing is pending (exactly once). "
-             "Decided on every run by the end-to-end oracle: real nbhttp server in IOMod x epoll-mode cells, up to 24 concurrent raw pipelining connections + net/http clients + nbhttp.Client, "
+             "Decided on every run by the end-to-end oracle: real nbhttp server in IOMod x {plain, TLS} x epoll-mode cells (one engine serves both listeners; IOModMixed with MaxBlockingOnline 6), up to 24 plain + 24 TLS (crypto/tls 1.2/1.3, optionally chopped records) concurrent raw pipelining connections + net/http clients (plain and https) + nbhttp.Client (plain and https), "
              "responses identified per connection and request (sizes around 64 KiB), order, exactly-once, isolation, keep-alive/close behaviour.",
         note="Partial: requests with bodies, the close decision and cross-connection isolation are oracle-checked, not theorems (isolation in the model is by construction; shared state in the code = buffer pools, see C11/C20). "
-             "TLS cells not yet in the matrix. Known finding D16 (Connection: close truncates a large response to a slow reader).",
+             "TLS is exercised, not modelled (record layer/handshake trusted to the independent clients). Known finding D16 (Connection: close truncates a large response to a slow reader).",
         design="4/C10"),
     "C18": dict(
         technique="Coq proof (invariant over all histories of a transition system for Stop + wait group + Async queue; bounded-progress termination; refutation witness) + verified log checker run on real engines + watchdog/leak oracle",
